@@ -27,6 +27,12 @@ case $FLAVOUR in
     CXXFLAGS_F="-O1 -g1 -fsanitize=thread -fno-omit-frame-pointer -DCELERITAS_VERIF_HOOKS=1"
     LDFLAGS_F="-fsanitize=thread"
     ;;
+  dbg)
+    # development aid only (not used by registered checks): CELERITAS_DEBUG=ON
+    CXXFLAGS_F="-O1 -g -DCELERITAS_VERIF_HOOKS=1"
+    LDFLAGS_F=""
+    DEBUG_OPT=ON
+    ;;
   *) echo "unknown flavour $FLAVOUR" >&2; exit 2;;
 esac
 
@@ -50,7 +56,7 @@ if [ ! -f "$B/repo/build.ninja" ]; then
     -DCELERITAS_USE_Geant4=OFF -DCELERITAS_USE_ROOT=OFF \
     -DCELERITAS_USE_VecGeom=OFF -DCELERITAS_USE_HepMC3=OFF \
     -DCELERITAS_USE_CUDA=OFF -DCELERITAS_USE_HIP=OFF \
-    -DCELERITAS_DEBUG=OFF > "$B/cmake-repo.log" 2>&1 || { cat "$B/cmake-repo.log" >&2; exit 2; }
+    -DCELERITAS_DEBUG=${DEBUG_OPT:-OFF} > "$B/cmake-repo.log" 2>&1 || { cat "$B/cmake-repo.log" >&2; exit 2; }
 fi
 ninja -C "$B/repo" corecel geocel orange celeritas > "$B/ninja-repo.log" 2>&1 \
   || { tail -50 "$B/ninja-repo.log" >&2; exit 2; }
